@@ -76,7 +76,16 @@ impl Default for SpecCfg {
 /// raw random material -> wellformed ModelSpec (construction, no rejection)
 pub fn spec_from_raw(cfg: SpecCfg, m_pick: u16, kinds: &[(u16, u16)], p_pick: u16, slots: &[u16], dup: u16) -> ModelSpec {
     // occasionally (1/16) more basis functions than the usual bound (up to max_m + 6)
-    let m = if cfg.allow_duplicates && m_pick & 0xF == 0xF { cfg.max_m + 1 + pick(m_pick, 6) } else { 1 + pick(m_pick, cfg.max_m) };
+    // (1/256: a large model, 13..24 basis functions and up to 40 parameters — more Jacobian
+    // columns than the 16 workers of the default pool)
+    let huge = cfg.allow_duplicates && m_pick & 0xFF == 0xFF;
+    let m = if huge {
+        13 + pick(m_pick.rotate_left(4), 12)
+    } else if cfg.allow_duplicates && m_pick & 0xF == 0xF {
+        cfg.max_m + 1 + pick(m_pick, 6)
+    } else {
+        1 + pick(m_pick, cfg.max_m)
+    };
     let big = m > cfg.max_m;
     let mut ks: Vec<Kind> = (0..m)
         .map(|j| {
@@ -93,7 +102,7 @@ pub fn spec_from_raw(cfg: SpecCfg, m_pick: u16, kinds: &[(u16, u16)], p_pick: u1
     }
     let max_arity = ks.iter().map(|k| k.arity()).max().unwrap();
     let total: usize = ks.iter().map(|k| k.arity()).sum();
-    let p_hi = total.min(if big { cfg.max_p + 4 } else { cfg.max_p }).max(max_arity);
+    let p_hi = total.min(if huge { 40 } else if big { cfg.max_p + 4 } else { cfg.max_p }).max(max_arity);
     let p = max_arity + pick(p_pick, p_hi - max_arity + 1);
     // slots in term order
     let mut terms: Vec<Term> = ks.iter().map(|&k| Term { kind: k, args: vec![usize::MAX; k.arity()] }).collect();
@@ -202,6 +211,8 @@ impl ProblemCase {
             None => "w:none",
             Some(w) if w.iter().all(|v| *v == 1.0) => "w:ones",
             Some(w) if w.iter().any(|v| *v == 0.0) => "w:zeros",
+            Some(w) if w.iter().all(|v| v.abs() < 1e-6) => "w:tiny",
+            Some(w) if w.iter().all(|v| v.abs() > 1e8) => "w:huge",
             Some(w) if w.iter().any(|v| *v < 0.0) => "w:negative",
             Some(_) => "w:positive",
         }
@@ -322,7 +333,8 @@ pub fn weights_from_raw(class: u16, n: usize, us: &[u16]) -> Option<Vec<f64>> {
     let pos = |i: usize| 10f64.powf(-3.0 + 6.0 * u(i));
     match pick(class, 8) {
         0 | 1 => None,
-        2 => Some(vec![1.0; n]),
+        // all weights equal: ones, or another common value (a uniform weight is not a unit weight)
+        2 => Some(vec![[1.0, 1.0, 2.0, 0.25, 50.0, 1.0, -1.0, 3.7][pick(us[5 % us.len()], 8)]; n]),
         3 | 4 => Some((0..n).map(pos).collect()),
         5 => Some((0..n).map(|i| 0.5 + 1.5 * u(i)).collect()),
         6 => Some((0..n).map(|i| if us[(i * 5 + 2) % us.len()] % 4 == 0 { 0.0 } else { pos(i) }).collect()),
@@ -398,7 +410,18 @@ pub fn case_from_raw(cfg: CaseCfg, spec: ModelSpec, raw: RawCase) -> ProblemCase
         let mrhs = s > 1 || flags & 0x101 == 0x101;
         // the raw material repeats after 5 columns: later columns are shifted so that they differ
         let y: Vec<Vec<f64>> = (0..s).map(|c| (0..n).map(|i| ys[(c * 40 + i) % ys.len()] + 0.013 * (c / 5) as f64).collect()).collect();
-        let w = if cfg.weights { weights_from_raw(wclass, n, &us[16..]) } else { None };
+        let is_f32 = cfg.allow_f32 && flags & 4 == 4 && flags & 64 == 64;
+        let mut w = if cfg.weights { weights_from_raw(wclass, n, &us[16..]) } else { None };
+        // 1/32 of the weighted cases: all weights tiny or huge (every singular value of W∘Phi far
+        // below / above the absolute threshold: the threshold semantics become observable)
+        if let Some(w) = w.as_mut() {
+            if wclass & 0x1F == 0x1F {
+                let f = if wclass & 0x20 == 0 { if is_f32 { 1e-10 } else { 1e-20 } } else { 1e12 };
+                for v in w.iter_mut() {
+                    *v *= f;
+                }
+            }
+        }
         let eps = if cfg.eps { eps_from_raw(epsclass, epsu, flags & 2 == 2) } else { None };
         ProblemCase {
             spec,
@@ -485,7 +508,9 @@ pub fn regime_of(spec: &ModelSpec, n: usize, s: usize) -> Vec<String> {
     } else if s > 8 {
         v.push("S>8".to_string());
     }
-    if spec.m() > 6 {
+    if spec.m() > 12 {
+        v.push(format!("M>12{}", if spec.p > 16 { ",P>16" } else { "" }));
+    } else if spec.m() > 6 {
         v.push("M>6".to_string());
     }
     v
@@ -750,7 +775,9 @@ pub fn family_from_raw(cfg: FamCfg, us: &[u16], seed: u64) -> FamCase {
         let k = if u() < 0.5 { 1.0 } else { 0.25 + 3.75 * u() };
         let phase = u() * 6.0;
         let sig: Vec<f64> = (0..n).map(|i| if hetero { level * 10f64.powf(0.5 * ((i as f64 * 0.37 + phase).sin())) } else { level }).collect();
-        case.w = if hetero { Some(sig.iter().map(|s| k / s).collect()) } else { None };
+        // equal sigma: no weights, or (half of the cases) the uniform weights k / sigma
+        let uniform_w = u() < 0.5;
+        case.w = if hetero || uniform_w { Some(sig.iter().map(|s| k / s).collect()) } else { None };
         case.sigma = sig;
     } else {
         if !noiseless {
